@@ -180,7 +180,7 @@ def gen_cases(seed, nrandom):
 # ------------------------------------------------------------------ real side (worker)
 
 
-class Alarm(Exception):
+class Alarm(BaseException):
     pass
 
 
@@ -206,7 +206,7 @@ def worker(infile, outfile):
                 for x in v:
                     l.addItem(ValueString(x))
                 it.environment.put(name, l)
-        signal.alarm(10)
+        signal.setitimer(signal.ITIMER_REAL, 10, 0.5)
         try:
             r = it.interpret(src, "t")
             if r.isString():
@@ -228,7 +228,7 @@ def worker(infile, outfile):
         except Exception as e:
             res = ['pyexc', type(e).__name__ + ': ' + str(e)[:200]]
         finally:
-            signal.alarm(0)
+            signal.setitimer(signal.ITIMER_REAL, 0)
         out.append(res)
         if k % 5000 == 0:
             print(f"  worker {infile}: {k}/{len(specs)}", flush=True)
